@@ -234,7 +234,7 @@ Definition a_step (s : astate) (o : op) : astate :=
   match o with
   | OFund d => a_push s (c_fund (core s) d)
   | OCreate a role status token stake => a_push s (c_create (core s) a role status token stake)
-  | OUpdate a u => a_push s (c_update (core s) a u)
+  | OUpdate a u | OUpdateIn a u => a_push s (c_update (core s) a u)
   | ORemove a => a_push s (c_remove (core s) a)
   | ODelegate d a amt => a_push s (c_delegate (core s) d a amt)
   | OSnapshot => a_snapshot s
@@ -259,7 +259,7 @@ Definition a_pre (s : astate) (o : op) : bool :=
   match o with
   | OCreate a role status token stake =>
     role_ok role && Z.leb 0 token && Z.eqb stake (token / stake_unit)
-  | OUpdate a u =>
+  | OUpdate a u | OUpdateIn a u =>
     match aget (xs (core s)) a with None => true | Some (old, _) => upd_ok old u end
   | ODelegate d a amt =>
     match aget (xs (core s)) a with
